@@ -80,8 +80,9 @@ var haveF64 = true
 
 func genC17(g *G) {
 	n := g.N(6000, 120000)
-	eg := &exprGen{r: g.R, funcs: true, redundantParens: 10, illTyped: 10}
+	eg := &exprGen{r: g.R, funcs: true, redundantParens: 10, illTyped: 10, rawBytes: 8}
 	hand := []string{
+		"['\xff': 1]", "['\xff\\'x': 1, '\xc3': 2]", "['\xe2\x82\\n': '\xff']", "['a\\nb\xf0\x9f': [1]]", "'\xff\\n' + '\xc3'",
 		"(1 + 2) * 3", "1 - (2 - 3)", "-(5)", "--5", "-(-$x)", "not (true and false)", "1.0", "1e6", "-0.0",
 		"['a\\'b': 1, 'c\\\\': [2, 3]]", "(true ? 1 : 2) ?: 3", "true ?: (false ? 1 : 2)", "(true ? 1 : 2) ? 3 : 4",
 		"true ? (false ? 1 : 2) : 3", "true ? 1 : false ? 2 : 3", "$a ? [1] : $b.c", "$a ? $b?.c : 2", "1 < (2 == 2)",
